@@ -131,17 +131,17 @@ Print Assumptions c14_unet_general_repaired.
 
 (* ConvNeXt: four stages C, 2C, 4C, 8C (C = 4*C4), any depths, stem stride 2^e,
    output stride 2^b <= 2^e, heads at 2^t with b <= t <= e+2, input multiple of 2^(e+3) *)
-Theorem c14_convnext_general : forall fixed c C4 ds e b heads st h w,
+Theorem c14_convnext_general : forall f41 fixed c C4 ds e b heads st h w,
   convnext_valid c C4 ds e b -> tv_heads_ok e b heads -> 0 < h -> 0 < w ->
-  exists m, build_model fixed (build_convnext c) heads = Some m /\
+  exists m, build_model_fx f41 fixed (build_convnext c) heads = Some m /\
     fst (model_forward m st (c_in_channels c, pow2 e * (2 * (2 * (2 * h))), pow2 e * (2 * (2 * (2 * w)))))
     = Some (contracted heads (h * pow2 (e + 3)) (w * pow2 (e + 3))).
 Proof. exact convnext_model_forward. Qed.
 Print Assumptions c14_convnext_general.
 
-Theorem c14_swint_general : forall fixed c C4 ds nhs e b heads st h w,
+Theorem c14_swint_general : forall f41 fixed c C4 ds nhs e b heads st h w,
   swint_valid c C4 ds nhs e b -> tv_heads_ok e b heads -> 0 < h -> 0 < w ->
-  exists m, build_model fixed (build_swint c) heads = Some m /\
+  exists m, build_model_fx f41 fixed (build_swint c) heads = Some m /\
     fst (model_forward m st (s_in_channels c, pow2 e * (2 * (2 * (2 * h))), pow2 e * (2 * (2 * (2 * w)))))
     = Some (contracted heads (h * pow2 (e + 3)) (w * pow2 (e + 3))).
 Proof. exact swint_model_forward. Qed.
@@ -178,6 +178,104 @@ Proof. exact repaired_witnesses. Qed.
 Print Assumptions c14_repair_removes_F20_F43.
 
 (* ---------------------------------------------------------------------------
+   THE PROPOSED REPAIRS AS FLAGS (proposed_fixes/C14_F17.diff, _F18, _F41, _F42).
+   `fx : fixes` says which repairs the code has (nofix = the tree as it is; the harness
+   detects the flags by replaying the corpus witnesses); `build_unet = build_unet_fx nofix`,
+   `build_model = build_model_fx false`, `in_domain = in_domain_fx false` by definition, so
+   every theorem above is the fx = nofix instance.  Head rule: the current tree's (fixed = true).
+
+   UNet, every value of the three flags, unbounded: each flag removes exactly its
+   selector from the hypotheses (flag on: no condition; flag off: selector false). *)
+Theorem c14_unet_contract_fx : forall fx u heads H W,
+  valid_config (CfgUNet u) heads = true -> in_domain (CfgUNet u) H W = true ->
+  (fx17 fx = true \/ selector_F17 (CfgUNet u) = false) ->
+  (fx18 fx = true \/ selector_F18 (CfgUNet u) = false) ->
+  (fx41 fx = true \/ selector_F41 (CfgUNet u) heads = false) ->
+  exists m, build_model_fx (fx41 fx) true (build_unet_fx fx u) heads = Some m /\
+    forall st, fst (model_forward m st (u_in_channels u, H, W)) = Some (contracted heads H W).
+Proof. exact unet_contract_fx. Qed.
+Print Assumptions c14_unet_contract_fx.
+
+(* all repairs on: EVERY valid UNet configuration meets the contract on every input
+   whose sides are multiples of max_stride, from every state -- the property's sentence
+   for the UNet family without any exception *)
+Theorem c14_unet_all_repairs : forall u heads H W,
+  valid_config (CfgUNet u) heads = true -> in_domain (CfgUNet u) H W = true ->
+  exists m, build_model_fx true true (build_unet_fx allfix u) heads = Some m /\
+    forall st, fst (model_forward m st (u_in_channels u, H, W)) = Some (contracted heads H W).
+Proof. intros. apply (unet_contract_fx allfix); auto. Qed.
+Print Assumptions c14_unet_all_repairs.
+
+(* in explicit form: any depth, stem, filters, rate, both upsampling modes; convs_per_block
+   >= 2 or (1 and fx18); middle block or fx17; heads at 2^t, b <= t < n or (t = n and fx41) *)
+Theorem c14_unet_general_fx : forall fixed fx c s d b heads st h w,
+  unet_valid_le c s d b -> cpb_ok (fx18 fx) (u_convs_per_block c) -> feeds fx c ->
+  heads_ok_fx (fx41 fx) heads b (s + d) -> heads_sized_fx fixed fx c s d b heads -> 0 < h -> 0 < w ->
+  exists m, build_model_fx (fx41 fx) fixed (build_unet_fx fx c) heads = Some m /\
+    fst (model_forward m st (u_in_channels c, h * pow2 (s + d), w * pow2 (s + d)))
+    = Some (contracted heads (h * pow2 (s + d)) (w * pow2 (s + d))).
+Proof. exact unet_model_forward_fx. Qed.
+Print Assumptions c14_unet_general_fx.
+
+(* construction alone never needed the middle block: F17 is a forward-pass failure *)
+Theorem c14_unet_builds : forall fx c s d b,
+  unet_valid_le c s d b -> cpb_ok (fx18 fx) (u_convs_per_block c) ->
+  build_unet_fx fx c = Some (unet_backbone_fx fx c s d b).
+Proof. exact build_unet_spec_fx. Qed.
+Print Assumptions c14_unet_builds.
+
+(* fx42: the multiples of the max_stride the repaired wrappers report are multiples of
+   the configured one and never fall under selector F42 *)
+Theorem c14_fx42_domain : forall c heads H W, valid_config c heads = true ->
+  in_domain_fx true c H W = true -> in_domain c H W = true /\ selector_F42 c H W = false.
+Proof. exact in_domain_fx_on. Qed.
+Print Assumptions c14_fx42_domain.
+
+(* all three families, every value of the flags.  PARTIAL for ConvNeXt / Swin-T: selector
+   F41 stays whatever fx41 is and selector F20 stays although the head rule is repaired
+   (for those two regions: c14_tv_top_head_fx, c14_repair_removes_F20_F43 -- finite). *)
+Theorem c14_contract_fx_partial : forall fx c heads H W,
+  valid_config c heads = true -> in_domain_fx (fx42 fx) c H W = true ->
+  residual_selector fx c heads H W = false ->
+  exists m, build_model_fx (fx41 fx) true (build_backbone_fx fx c) heads = Some m /\
+    forall st, fst (model_forward m st (cfg_in_channels c, H, W)) = Some (contracted heads H W).
+Proof. exact contract_fx_partial. Qed.
+Print Assumptions c14_contract_fx_partial.
+
+Theorem c14_call_sequences_fx : forall fx c heads m (inputs : list (Z * Z)),
+  valid_config c heads = true ->
+  build_model_fx (fx41 fx) true (build_backbone_fx fx c) heads = Some m ->
+  Forall (fun hw => in_domain_fx (fx42 fx) c (fst hw) (snd hw) = true /\
+                    residual_selector fx c heads (fst hw) (snd hw) = false) inputs ->
+  forall st,
+    model_calls m st (map (fun hw => (cfg_in_channels c, fst hw, snd hw)) inputs)
+    = map (fun hw => Some (contracted heads (fst hw) (snd hw))) inputs.
+Proof. exact call_sequences_fx. Qed.
+Print Assumptions c14_call_sequences_fx.
+
+(* each repair turns its refuted witness into a configuration that meets the contract
+   (F42: takes the 48 x 48 input out of the domain); last line: all four at once on a
+   UNet without middle block, one conv per block, transposed-conv-free, heads at 16 and 4 *)
+Theorem c14_repairs_on_witnesses :
+  meets_contract_fx true only17 (w_unet 16 (2 # 1) 16 2 false 2) (get_head MSingle 3 2 2 2) 32 48 = true /\
+  meets_contract_fx true only18 (w_unet 16 (2 # 1) 16 2 true 1) (get_head MSingle 3 2 2 2) 32 48 = true /\
+  meets_contract_fx true only41 (w_unet 16 (2 # 1) 16 16 true 2) (get_head MCentroid 3 2 16 16) 32 48 = true /\
+  in_domain_fx true (w_swint_tiny 4 4 16) 48 48 = false /\
+  meets_contract_fx true allfix (w_unet 16 (3 # 2) 16 4 false 1) (get_head MBottomUp 3 2 16 4) 32 48 = true.
+Proof. exact repaired_witnesses_fx. Qed.
+Print Assumptions c14_repairs_on_witnesses.
+
+(* FINITE (the seven shipped presets x stem stride 2, 4): a head on the encoder output
+   fails as the tree is and meets the contract with fx41 *)
+Theorem c14_tv_top_head_fx :
+  forallb (fun c =>
+    let hs := get_head MBottomUp 3 2 (cfg_output_stride c) (effective_max_stride c) in
+    valid_config c hs && selector_F41 c hs && negb (meets_contract_fx true nofix c hs 64 96) &&
+    meets_contract_fx true only41 c hs 64 96) tv_presets = true.
+Proof. exact tv_top_head_fx. Qed.
+Print Assumptions c14_tv_top_head_fx.
+
+(* ---------------------------------------------------------------------------
    (d) the one stateful layer.  On an even side the computed pad is 0 and the
    result does not depend on whether the layer was called before ... *)
 Theorem c14_pool_pad_zero_on_even : forall same a, 0 < a ->
@@ -207,7 +305,7 @@ Print Assumptions c14_call_sequences.
    different shapes on its first and on its second call: the restriction to
    multiples of max_stride is necessary for statelessness *)
 Theorem c14_stateful_outside_domain :
-  r_calls (run (CEncoder w_u [(33, 48); (33, 48)]))
+  r_calls (run (CEncoder nofix w_u [(33, 48); (33, 48)]))
   = [Some [(64, 3, 3); (32, 5, 6); (16, 9, 12); (8, 17, 24); (4, 33, 48)];
      Some [(64, 2, 3); (32, 4, 6); (16, 8, 12); (8, 16, 24); (4, 33, 48)]].
 Proof. exact stateful_outside_domain. Qed.
